@@ -1724,6 +1724,7 @@ impl<'ctx> ByteCompiler<'ctx> {
                         Statement::Break(_) | Statement::Continue(_) => break,
                         Statement::Empty | Statement::Var(_) => {}
                         Statement::Block(block) if !returns_value(block) => {}
+                        Statement::Labelled(labelled) if !returns_value(labelled) => {}
                         _ => use_expr_index = i,
                     },
                     StatementListItem::Declaration(_) => {}
